@@ -121,6 +121,23 @@ Decode(k, m, L, parts) ==
        IF Len(all) < L THEN [ok |-> FALSE, data |-> <<>>]
        ELSE [ok |-> TRUE, data |-> SubSeq(all, 1, L)]                        \* ConcatDataParts: [:dataLen]
 
+-----------------------------------------------------------------------------
+(* Several rules encoded in order from ONE buffer whose capacity exceeds the payload length by `slack` cells
+   (spare capacity is what reedsolomon.Split re-uses and zeroes). rules = sequence of <<k, m>>.               *)
+BufferWithSlack(L, slack) == [c \in 1..(L + slack) |-> IF c <= L THEN D(c) ELSE Junk]
+RECURSIVE EncodeAll(_, _, _, _)
+EncodeAll(rules, L, mem, encs) ==        \* returns [mem, encs] after encoding rules[Len(encs)+1 ..]
+  IF Len(encs) = Len(rules) THEN [mem |-> mem, encs |-> encs]
+  ELSE LET r == rules[Len(encs) + 1]
+           e == Encode(r[1], r[2], L, mem)
+       IN EncodeAll(rules, L, e.mem, Append(encs, e.shards))
+\* indexes of the rules whose parts, read AFTER all rules were encoded, differ from their reference encoding
+MultiCorrupted(rules, L, slack) ==
+  IF slack = 0 \/ L = 0 THEN {}          \* no spare capacity: data shards alias the payload read-only, the rest is allocated
+  ELSE LET fin == EncodeAll(rules, L, BufferWithSlack(L, slack), <<>>) IN
+       {e \in 1..Len(rules) : \E i \in 1..(rules[e][1] + rules[e][2]) :
+            Deref(fin.encs[e][i], fin.mem) # RefPart(rules[e][1], rules[e][2], L, i)}
+
 DecodeRange(k, m, from, to, parts) == Reconstruct(k, m, parts, from..to)
 DecodeIndexes(k, m, parts, idxs) == Reconstruct(k, m, parts, idxs)
 =============================================================================
